@@ -13,4 +13,16 @@ int main() { FILE* f = tmpfile(); auto r = gil::make_scanline_reader(f, gil::bmp
 #elif C13_PROBE == 2
 // control: the file-name overload compiles
 int main() { auto r = gil::make_scanline_reader("x.bmp", gil::bmp_tag()); (void)r; }
+#elif C13_PROBE == 3
+// make_scanline_reader(filesystem::path, tag) forwards read settings to an overload that takes a format tag
+int main() { gil::detail::filesystem::path p("x.bmp"); auto r = gil::make_scanline_reader(p, gil::bmp_tag()); (void)r; }
+#elif C13_PROBE == 4
+#include <boost/gil/extension/io/tiff.hpp>
+int main() { std::wstring p(L"x.tif"); gil::rgb8_image_t im; gil::read_image(p, im, gil::tiff_tag()); }
+#elif C13_PROBE == 5
+#include <boost/gil/extension/io/tiff.hpp>
+int main() { FILE* f = tmpfile(); gil::rgb8_image_t im; gil::read_image(f, im, gil::tiff_tag()); }
+#elif C13_PROBE == 6
+// control: a std::wstring name compiles for a non-TIFF format
+int main() { std::wstring p(L"x.bmp"); gil::rgb8_image_t im; gil::read_image(p, im, gil::bmp_tag()); }
 #endif
